@@ -164,7 +164,9 @@ pub fn render(pc: &ParseCase) -> Script {
     for shape in &pc.blocks {
         let start = data.len();
         let mut seqs: Vec<Seq> = vec![];
-        let mut budget = BLK;
+        // Block_Maximum_Size = min(window, 128 KiB): a well-behaved matcher does not hand out
+        // spaces larger than the window it advertises
+        let mut budget = BLK.min(window as usize);
         // helpers
         let push_lits = |data: &mut Vec<u8>, n: usize, r: &mut Rng, alpha: u64| {
             for _ in 0..n {
@@ -187,6 +189,7 @@ pub fn render(pc: &ParseCase) -> Script {
             }
             push_lits(data, ll, r, alpha);
             let reach = (data.len() as u64).min(window) as usize;
+            let off_sel = if off_sel == u64::MAX { r.next() % 6 } else { off_sel };
             let off = match off_sel % 6 {
                 0 => 1 + r.below(reach as u64) as usize,
                 1 => 1 + r.below(8.min(reach) as u64) as usize,
@@ -222,7 +225,7 @@ pub fn render(pc: &ParseCase) -> Script {
                         _ => 3 + r.below(5000),
                     } as usize;
                     let alpha = [2u64, 4, 16, 64, 256][r.below(5) as usize];
-                    if !add(&mut data, &mut r, ll, ml, r.0, alpha, &mut seqs, &mut budget) {
+                    if !add(&mut data, &mut r, ll, ml, u64::MAX, alpha, &mut seqs, &mut budget) {
                         break;
                     }
                 }
@@ -237,7 +240,7 @@ pub fn render(pc: &ParseCase) -> Script {
             Shape::AllLlZero { n } => {
                 for _ in 0..*n {
                     let ml = 3 + r.below(40) as usize;
-                    if !add(&mut data, &mut r, 0, ml, r.0, 4, &mut seqs, &mut budget) {
+                    if !add(&mut data, &mut r, 0, ml, u64::MAX, 4, &mut seqs, &mut budget) {
                         break;
                     }
                 }
@@ -245,7 +248,7 @@ pub fn render(pc: &ParseCase) -> Script {
             Shape::AllMlThree { n } => {
                 for _ in 0..*n {
                     let ll = r.below(30) as usize;
-                    if !add(&mut data, &mut r, ll, 3, r.0, 16, &mut seqs, &mut budget) {
+                    if !add(&mut data, &mut r, ll, 3, u64::MAX, 16, &mut seqs, &mut budget) {
                         break;
                     }
                 }
@@ -254,13 +257,14 @@ pub fn render(pc: &ParseCase) -> Script {
                 for _ in 0..*n {
                     let ll = ll_edges[r.below(ll_edges.len() as u64) as usize] as usize;
                     let ml = ml_edges[r.below(ml_edges.len() as u64) as usize] as usize;
-                    if !add(&mut data, &mut r, ll, ml, r.0, 64, &mut seqs, &mut budget) {
+                    if !add(&mut data, &mut r, ll, ml, u64::MAX, 64, &mut seqs, &mut budget) {
                         break;
                     }
                 }
             }
             Shape::HugeLl { ll } => {
-                add(&mut data, &mut r, (*ll as usize).min(BLK - 3), 3, r.0, 256, &mut seqs, &mut budget);
+                let cap = budget - 3;
+                add(&mut data, &mut r, (*ll as usize).min(cap), 3, u64::MAX, 256, &mut seqs, &mut budget);
             }
             Shape::HugeMl { ml } => {
                 add(&mut data, &mut r, 0, *ml as usize, 1, 4, &mut seqs, &mut budget);
@@ -270,20 +274,22 @@ pub fn render(pc: &ParseCase) -> Script {
                 add(&mut data, &mut r, 0, 8, 0, 256, &mut seqs, &mut budget);
                 let n = (*n as usize).min(budget);
                 data.resize(data.len() + n, 0x61);
+                budget -= n;
             }
             Shape::ThresholdLiterals { n, alpha } => {
                 let n = (*n as usize).min(budget.saturating_sub(8));
-                add(&mut data, &mut r, n, 5, r.0, *alpha as u64, &mut seqs, &mut budget);
+                add(&mut data, &mut r, n, 5, u64::MAX, *alpha as u64, &mut seqs, &mut budget);
             }
             Shape::Incompressible { n } => {
                 let n = (*n as usize).min(budget.saturating_sub(8));
-                add(&mut data, &mut r, n, 3, r.0, 256, &mut seqs, &mut budget);
+                add(&mut data, &mut r, n, 3, u64::MAX, 256, &mut seqs, &mut budget);
             }
             Shape::FarOffsets { n } => {
                 for _ in 0..*n {
                     let ll = r.below(40) as usize;
                     let ml = 3 + r.below(60) as usize;
-                    if !add(&mut data, &mut r, ll, ml, 2 + r.below(2), 16, &mut seqs, &mut budget) {
+                    let sel = 2 + r.below(2);
+                    if !add(&mut data, &mut r, ll, ml, sel, 16, &mut seqs, &mut budget) {
                         break;
                     }
                 }
@@ -292,8 +298,10 @@ pub fn render(pc: &ParseCase) -> Script {
         // occasional literal tail
         if r.below(3) == 0 {
             let tail = (r.below(200) as usize).min(budget);
+            // (after a one-valued literal run the tail keeps that value, so the block's literals stay single-valued)
+            let one_valued = matches!(shape, Shape::OneValueLiterals { .. });
             for _ in 0..tail {
-                data.push(r.below(16) as u8);
+                data.push(if one_valued { 0x61 } else { r.below(16) as u8 });
             }
         }
         let len = data.len() - start;
@@ -336,7 +344,9 @@ fn reference_script(rc: &RefParseCase) -> Option<Script> {
     if total != data.len() || blocks.is_empty() || blocks.iter().any(|b| b.len > BLK) {
         return None;
     }
-    let window = (max_off as u64).max(1024).next_power_of_two();
+    // the advertised window covers every offset and every block (Block_Maximum_Size = min(window, 128 KiB))
+    let max_block = blocks.iter().map(|b| b.len).max().unwrap_or(0) as u64;
+    let window = (max_off as u64).max(max_block).max(1024).next_power_of_two();
     Some(Script { data, blocks, window })
 }
 
